@@ -31,7 +31,7 @@ for i in range(N):
     for spelling in ('quoted', 'bare', 'raw'):
         if spelling == 'raw':
             # a segment used verbatim: an identifier (possibly an existing name) plus a suffix; must be refused or read back exactly
-            names = [R.choice(['x', 'v', 'ab', 'if', 'a_b']) + R.choice(['\n', ' ', '\t', '-', "'", '\r', '+', '\n\n', '$', '/']) for _ in names]
+            names = [R.choice(['x', 'v', 'ab', 'if', 'a_b']) + R.choice(['\n', ' ', '\t', '-', "'", '\r', '+', '\n\n', '$', '/', 'é', '²', 'ñb', '٣', 'ß']) for _ in names]
             path = '.'.join(names)
         elif spelling == 'bare':
             if not all(IDENT.match(n) for n in names): continue
